@@ -6,7 +6,7 @@ use crate::ints::{int_kernel, pairs_by_form, same_eq};
 use crate::refm::*;
 use arrow_arith::numeric;
 use arrow_array::types::*;
-use arrow_array::{ArrowNativeTypeOp, ArrowPrimitiveType};
+use arrow_array::ArrowNativeTypeOp;
 use arrow_schema::DataType;
 use num_bigint::BigInt;
 use vcore::{Ctx, Stats, par_for};
